@@ -15,12 +15,23 @@
 //@   requires(__CPROVER_r_ok(this, sizeof(LogSequence)) && LS_WF(this) && position < this->numentries && value <= this->maxval)
 //@   assigns(__CPROVER_object_whole(this->array))
 //@   ensures(1)
+//@ fn LogSequence::ctor sig=unsigned_int__size_t
+//@   requires(__CPROVER_w_ok(this, sizeof(*this)) && numbits >= 1 && numbits <= 64 && capacity <= 4096)
+//@   ensures(this->numbits == numbits && this->numentries == capacity && this->maxval == LS_MAXVAL(numbits) && this->arraysize == LS_WORDS(numbits, capacity))
+//@   ensures(__CPROVER_is_fresh(this->array, this->arraysize * sizeof(size_t)))
+//@   ensures(gk < this->arraysize ==> this->array[gk] == 0)
+//@   assigns(__CPROVER_object_whole(this))
+//@   loop 1: assigns(i, __CPROVER_object_whole(this->array))
+//@   loop 1: invariant(i <= this->arraysize && (gk < i ==> this->array[gk] == 0) && this->arraysize == LS_WORDS(numbits, capacity) && __CPROVER_same_object(this->array, __CPROVER_loop_entry(this->array)) && OFFS(this->array) == 0 && OBJSZ(this->array) == this->arraysize * sizeof(size_t))
+//@   loop 1: decreases(this->arraysize - i)
+//@ ob ls_ctor entry=h_ls_ctor enforce=LogSequence__ctor__unsigned_int__size_t loops tier=P props=C17,C07 kind=statement foreach=WIDTH:1-64 quick=WIDTH:1,7,33,64
 //@ ob ls_roundtrip entry=h_rt tier=C props=C17,C01,C07 kind=statement foreach=WIDTH:1-64 quick=WIDTH:1,2,7,8,13,31,32,33,63,64 replay=logseq timeout=600
 //@ ob ls_maxval entry=h_maxval tier=C props=C17,C20 kind=statement
 //@ ob ls_sizes entry=h_sizes tier=C props=C17,C06 kind=statement foreach=WIDTH:1-64 quick=WIDTH:1,7,8,33,64
 //@ ob ls_bits entry=h_bits tier=C props=C17,C20 kind=statement unwind=66
 //@ ob ls_getField entry=h_getField enforce=LogSequence__getField tier=C props=C17,C07,C02 kind=statement foreach=WIDTH:1-64 quick=WIDTH:1,7,32,33,64 replay=logseq
 //@ ob ls_setField entry=h_setField enforce=LogSequence__setField tier=C props=C17,C07 kind=statement foreach=WIDTH:1-64 quick=WIDTH:1,7,32,33,64 replay=logseq
+size_t gk;   /* ghost index */
 #define LS_MAXVAL(w) ((w) >= 64 ? ~(size_t)0 : (((size_t)1 << (w)) - 1))
 /* class invariant of LogSequence as its constructors establish it: 1 <= numbits <= 64, array holds
  * ceil(numbits*numentries/64) words, maxval = 2^numbits-1 */
@@ -95,5 +106,11 @@ void h_setField(void) {
   __CPROVER_assume(in_n <= 4096 && in_nwords <= 4096);
   LogSequence *ls = mk_ls(in_n, in_nwords);
   LogSequence__setField(ls, in_pos, in_val);
+  REACH_POINT();
+}
+void h_ls_ctor(void) {
+  LogSequence *ls = malloc(sizeof(LogSequence)); __CPROVER_assume(ls != NULL);
+  size_t in_cap; __CPROVER_assume(gk < 4096);
+  LogSequence__ctor__unsigned_int__size_t(ls, WIDTH, in_cap);
   REACH_POINT();
 }
